@@ -160,6 +160,27 @@ func run(c *mc.Ctx) {
 		}
 	})
 
+	// family O (other localized items): play_audio's URL (a text-less message: the locale names the
+	// attachment's language), send_email's subject and body, set_run_result's category
+	for _, x := range []struct{ action, prop, other string }{
+		{"play_audio", "audio_url", ""}, {"send_email", "subject", "body"}, {"send_email", "body", "subject"}, {"set_run_result", "category", ""},
+	} {
+		vectors(listStates, func(v [3]State) {
+			for _, others := range []State{Absent, Same} {
+				if x.other == "" && others != Absent {
+					continue
+				}
+				for _, base := range bases {
+					cfg := Config{Action: x.action, Setting: Setting{Base: base}, Tr: map[string]map[string][]string{x.prop: trOf(x.prop, v)}}
+					if x.other != "" {
+						cfg.Tr[x.other] = uniform(x.other, others)
+					}
+					flow(x.action+":"+x.prop, cfg, settingsOfBase(all, base))
+				}
+			}
+		})
+	}
+
 	// family B (send_broadcast: one translation per language of the flow, explicit chain [language, base])
 	for _, p := range msgProps {
 		vectors(props[p], func(v [3]State) {
@@ -180,7 +201,7 @@ func run(c *mc.Ctx) {
 		})
 	}
 	if expired {
-		c.Cap("time budget reached: families are enumerated in a fixed order (per property, crosses, router, say_msg, broadcast) and every flow before the cap was checked under all its settings")
+		c.Cap("time budget reached: families are enumerated in a fixed order (per property, crosses, router, say_msg, other items, broadcast) and every flow before the cap was checked under all its settings")
 	}
 }
 
@@ -278,7 +299,7 @@ func init() {
 			"Enumerated exhaustively: (P) send_msg, for each of text / attachments / quick replies all its state vectors x the other two properties {untranslated, translated everywhere} x 4 base shapes (attachments and quick replies present or not) x 60 settings; " +
 			"(X) full cross of the state vectors of two properties (quick: text x attachments at 6 settings covering every chain shape; thorough: all three pairs at all 60 settings); " +
 			"(R) switch router: all state vectors of the case arguments x category name {untranslated, translated} and vice versa x 60 settings (the used arguments are read off the match, the category name off category_localized); " +
-			"(V) say_msg in a voice flow: all 216 text vectors x 60 settings; (B) send_broadcast: per property all state vectors x others {untranslated, translated} x 3 base languages x 2 settings, each language's content judged with the chain [that language, base]. " +
+			"(V) say_msg in a voice flow: all 216 text vectors x 60 settings; (O) play_audio's URL, send_email's subject and body, set_run_result's category: all 125 vectors x 60 settings each; (B) send_broadcast: per property all state vectors x others {untranslated, translated} x 3 base languages x 2 settings, each language's content judged with the chain [that language, base]. " +
 			"Every (flow, setting) is distinct by construction; distinct_nontrivial counts the sessions in which some property was decided by a rung other than 'the first preference is the base language'.",
 		Assumptions: []string{
 			"a translation is non-empty iff it has at least one item and is not [\"\"] (the reading the statement's why-clause gives)",
@@ -302,7 +323,7 @@ func guards(r *mc.Result, tier string) []string {
 			f = append(f, "never observed: "+fact)
 		}
 	}
-	for _, p := range []string{"text", "attachments", "quick_replies", "arguments", "name", "say_text"} {
+	for _, p := range []string{"text", "attachments", "quick_replies", "arguments", "name", "say_text", "audio_url", "subject", "body", "category"} {
 		for _, d := range []string{"contact-language-translation", "default-language-translation", "contact-language-is-base", "default-language-is-base", "base-after-all-preferences-empty", "base-is-first-preference"} {
 			need(p + ":decided-by:" + d)
 		}
